@@ -42,6 +42,19 @@ Theorem C08_reopen_equiv_saveindex :
 Proof. exact reopen_equiv_saveindex. Qed.
 Print Assumptions C08_reopen_equiv_saveindex.
 
+(* The same with read-write reopens allowed in the middle, each right after a SaveIndex
+   (any AutoSaveIndex setting). *)
+Theorem C08_reopen_equiv_saveindex_reopen :
+  forall (N : nat) (mf : nat -> bool) (succs : nat -> list nat) (subj : nat -> option nat)
+         (sk dflt : nat -> bool),
+    (forall k, mf k = false -> succs k = []) ->
+    forall (T : nat) (cfg : config) (h : list (op * orders)) (o : orders),
+      wf_history h -> reopen_after_save true h ->
+      let s := run N mf succs subj sk true true cfg (h ++ [(OSave, o)]) store_empty in
+      obs_equiv N succs dflt T (reopen N mf succs s) s /\ disk_valid s = true.
+Proof. exact reopen_equiv_saveindex_general. Qed.
+Print Assumptions C08_reopen_equiv_saveindex_reopen.
+
 (* the representation invariant behind it (used by C07: the graph rebuilt by loadIndex is the
    live graph): every stored manifest is referenced by digest and indexed in the graph, every
    indexed manifest is stored, every reference points to stored content *)
